@@ -27,7 +27,7 @@ RULE = ("the library's MPI code paths (selected at import time) executed in simu
         "scenarios catalog creation (given centres / patch ids / automatic centres; chunks with fewer records than "
         "processing ranks), Catalog(cache) incl. metadata "
         "computation, build_trees, autocorrelate, crosscorrelate, HistData.from_catalog, result I/O, and the bare "
-        "dispatch iterator with fewer / more tasks than workers; schedules: which blocked MPI call completes next "
+        "dispatch iterator with fewer / more tasks than workers, with and without progress display; schedules: which blocked MPI call completes next "
         "(seeded random, lowest / highest rank first, round robin, starving one rank), which sender a wildcard receive "
         "matches, eager / synchronous / mixed send completion; a state without an enabled call is a deadlock. Checked: "
         "all ranks terminate, no message is left unreceived, no rank raises (except the documented refusal of catalog "
@@ -224,7 +224,7 @@ def run(prop, tier, seed, replay):
                                 if (sid + k) % 7 == 0:
                                     sched["starve"] = rng.randrange(size)
                                 node_only = sc == "iter" and nodes == "two" and k % 2 == 1
-                                p = dict(p0, max_workers=mw, node_only=node_only)
+                                p = dict(p0, max_workers=mw, node_only=node_only, progress=(k % 2 == 1))
                                 jid = f"{sc}|{var}|{size}|{mw}|{nodes}|{k}"
                                 jobs.append(dict(id=jid, scenario=sc, params=p, size=size, names=names, dir=str(root),
                                                  schedule=sched, want_trace=True))
